@@ -149,7 +149,15 @@ def expected(cfg):
     def pattern_rules(dollar, index, fname):
         try:
             for r in by("P"):
-                if pat_eval(r["pat"], dollar):
+                fx = r.get("pfx")
+                if fx is not None:
+                    # the pattern calls a function that executes next / exit when `when` holds of $, and yields `value` otherwise
+                    # (or is never reached: the call sits behind a short-circuit)
+                    if fx["reached"] and pat_eval(fx["when"], dollar):
+                        raise Exit() if fx["what"] == "exit" else Next()
+                    if fx["value"]:
+                        body(r, dollar, index, fname)
+                elif pat_eval(r["pat"], dollar):
                     body(r, dollar, index, fname)
         except Next:
             pass
@@ -229,6 +237,8 @@ def program_text(cfg, rng):
     for name, text in sorted(PREAMBLE.items()):
         if any(r["kind"] == "P" and r["pat"] and name in r["pat"] for r in rules):
             parts.insert(rng.randrange(len(parts) + 1), text)
+    for text in cfg.get("funcs", []):
+        parts.insert(rng.randrange(len(parts) + 1), text)
     return rng.choice(["\n", "\n\n", " \n"]).join(parts)
 
 
@@ -435,6 +445,66 @@ def cli_scenario(rng, k):
             return cfg
 
 
+# ------------------------------------------------------------------ next / exit executed while a PATTERN is being evaluated
+# "`next` abandons the remaining rules for that element only, `exit` ends the whole run": wherever the statement is executed.
+# A pattern is an expression, so the statement gets there through a function the pattern calls (directly, through a second
+# function, from inside a sub-expression of the pattern, behind a short-circuit that skips it) or through a match block.
+# (pattern text with @ for the call, truth of the pattern given the function's result v, is the call reached)
+PFX_SHAPES = [
+    ("@", lambda v: v, True), ("@", lambda v: v, True), ("!@", lambda v: not v, True), ("(@ && true)", lambda v: v, True), ("(false || @)", lambda v: v, True),
+    ("(true && @)", lambda v: v, True), ("[@][0]", lambda v: v, True), ("idf(@)", lambda v: v, True), ("(@ == true)", lambda v: v, True),
+    ("(\"x\" + @)", lambda v: True, True), ("[@]", lambda v: True, True), ("(@)", lambda v: v, True), ("!!@", lambda v: v, True),
+    ("(@ || false)", lambda v: v, True), ("(1 + @ > 1)", lambda v: v, True), ("match (@) { q => q }", lambda v: v, True),
+    ("(false && @)", lambda v: False, False), ("(true || @)", lambda v: True, False), ("(0 && @)", lambda v: False, False),
+]
+PFX_WHEN = ["true", "false", "$", "!$", "$ is number", "$ is string", "$ is null", "$ is array", "$ is object", "$ is bool"]
+
+
+def add_pattern_effects(rng, cfg):
+    """turn 1-3 pattern rules of a configuration into rules whose pattern executes next / exit"""
+    rules = cfg["rules"]
+    prules = [i for i, r in enumerate(rules) if r["kind"] == "P"]
+    if not prules:
+        return False
+    seen = seen_by_patterns(cfg)
+    whens = list(PFX_WHEN)
+    if all(not isinstance(v, (list, dict)) for v in seen):
+        whens += SCALAR_PATS * 3
+    funcs = []
+    for n, i in enumerate(rng.sample(prules, min(len(prules), rng.choice([1, 1, 2, 3])))):
+        r = rules[i]
+        what = rng.choice(["next", "next", "next", "exit"])
+        when = rng.choice(whens)
+        ret = rng.random() < 0.7
+        fn = "pf%d" % n
+        cond = when.replace("$", "v")
+        style = rng.randrange(5)
+        if style == 0:
+            funcs.append("function %s(v) { if (%s) %s; return %s }" % (fn, cond, what, "true" if ret else "false"))
+        elif style == 1:
+            funcs.append("function %s(v) {\n  if (%s) { %s }\n  return %s\n}" % (fn, cond, what, "true" if ret else "false"))
+        elif style == 2:
+            # through a second function
+            funcs.append("function %s(v) { return %sin(v) }" % (fn, fn))
+            funcs.append("function %sin(v) { if (%s) { print \"never\", %s }\n  return %s }" % (
+                fn, cond, "match (1) { 1 => { %s } }" % what, "true" if ret else "false"))
+        elif style == 3:
+            # in a match block inside the function
+            funcs.append("function %s(v) { match (%s) { true => { %s }, _ => { return %s } }\n  return %s }" % (
+                fn, "!!(%s)" % cond, what, "true" if ret else "false", "true" if ret else "false"))
+        else:
+            # inside a loop of the function
+            funcs.append("function %s(v) { for (i = 0; i < 2; i++) { if (%s) %s }\n  return %s }" % (fn, cond, what, "true" if ret else "false"))
+        shape, truth, reached = rng.choice(PFX_SHAPES)
+        r["pat"] = shape.replace("@", "%s($)" % fn)
+        r["pfx"] = {"what": what, "when": when, "value": bool(truth(ret)), "reached": reached}
+        # the pattern starts with an operator, a bracket or a name: the rule before it must have a body of its own
+        if i > 0 and rules[i - 1]["bodyless"]:
+            rules[i - 1]["bodyless"] = False
+    cfg["funcs"] = funcs
+    return True
+
+
 class C02(Check):
     pid = "C02"
     props = ["C02_schedule.v"]
@@ -447,6 +517,9 @@ class C02(Check):
             "the same kind of configuration through the real binary in a scratch directory with 1-4 input files whose NAMES are hostile "
             "(glob metacharacters next to files the name would match as a pattern, spaces, leading dashes, option look-alikes, names "
             "that are prefixes or other spellings of each other, shell syntax, the same file twice), program inline / -f / after --; "
+            "next / exit executed WHILE A PATTERN IS EVALUATED (1-3 pattern rules per configuration whose pattern calls a function that runs "
+            "next or exit when a condition on $ holds: directly, through a second function, in a match block, in a loop; the call as the whole "
+            "pattern, negated, inside && || [] () == + match and call sub-expressions, and behind a short-circuit that skips it), any rule position; "
             "non-trivial = at least two rule kinds and at least two executed activations")
 
     def generate(self, rng, tier):
@@ -488,6 +561,28 @@ class C02(Check):
             self.cli.append(Case(cid + "!", None, dict(meta, role="the jqawk binary in a scratch directory"), True, ("cli",)))
             files = [(name, [texts[os.path.normpath(name)].encode()], False) for name in names]
             cases.append(Case(cid, run_case(cid, prog, files, sels, True), dict(meta, role="library run"), True))
+        # ---- next / exit executed during the evaluation of a pattern
+        k, made = 0, 0
+        want_n = 700 if tier == "quick" else 20000
+        while made < want_n and k < want_n * 4:
+            k += 1
+            cfg = gen_config(rng, k)
+            if not add_pattern_effects(rng, cfg):
+                continue
+            prog = program_text(cfg, rng)
+            files = []
+            for name, values in cfg["files"]:
+                text = stream_text(values, rng).encode()
+                files.append((name, [text[i:i + 512] for i in range(0, len(text), 512)], False))
+            sels = [sel_text(p) for p in cfg["selectors"]]
+            exp = expected(cfg)
+            cid = "x%d" % made
+            made += 1
+            meta = {"prog": prog, "selectors": sels, "files": [[name, b"".join(ch).decode()] for name, ch, _ in files], "expected": exp,
+                    "pattern_effects": [dict(r["pfx"], pattern=r["pat"], rule=r["id"]) for r in cfg["rules"] if "pfx" in r]}
+            acts = len(seen_by_patterns(cfg))
+            cases.append(Case(cid, run_case(cid, prog, files, sels, True), meta, acts >= 1 and len([r for r in cfg["rules"] if r["kind"] == "P"]) >= 2,
+                              ("pattern-effect",)))
         return cases
 
     def oracle(self, case, impl):
